@@ -147,6 +147,11 @@ theorem gen_close_order : BlugeGen.C11.closeOrder = ["close-closeCh", "wait", "r
 theorem gen_load_snapshots :
     BlugeGen.C11.loadOldestFirst = true ∧ BlugeGen.C11.loadCommits = true ∧ BlugeGen.C11.loadContinuesOnErr = true := by decide
 
+/-- … and commits ONLY those: one `deletionPolicy.Commit` call in loadSnapshots, not in an error branch (a torn newest
+snapshot committed last would push the last good one out of `liveEpochs`) -/
+theorem gen_load_commits_only_loaded :
+    BlugeGen.C11.loadCommitCalls = 1 ∧ BlugeGen.C11.loadCommitOnErr = false := by decide
+
 /-- `Policy.commit` is `KeepNLatestDeletionPolicy.Commit` -/
 theorem gen_policy_commit :
     BlugeGen.C11.commitExprs =
